@@ -44,7 +44,8 @@ EXPLANATION = (
     "preceded on every CFG path from the definition of the Rename variable by a test of its `type`. "
     "Not decided: nondeterminism through undefined behaviour elsewhere (C05/C06 cover memory safety), locale, reads of "
     "uninitialised locals, and the iteration order of the hash tables beyond 'hashes and comparators see characters only'."
-    " (R9, engine shared with C18 R1) every unit of libexpress, exppp and exp2cxx re-parses without an incompatible-pointer, int/pointer or implicit-declaration diagnostic: no object reaches a sorting or printing helper under the wrong struct type (what such a helper takes for a name would be the bytes of a heap address).")
+    " (R9, engine shared with C18 R1) every unit of libexpress, exppp and exp2cxx re-parses without an incompatible-pointer, int/pointer or implicit-declaration diagnostic: no object reaches a sorting or printing helper under the wrong struct type (what such a helper takes for a name would be the bytes of a heap address)."
+    " (R10, engine of C18 R1 with the flow-sensitive -Wuninitialized / -Wsometimes-uninitialized diagnostics) no local of libexpress, exppp, exp2cxx or exp2python is read before it is assigned.")
 
 OUT_COMPONENTS = ("exp2cxx", "exp2python", "exppp", "scanner")
 LIBC_FMT = {"fprintf": 1, "printf": 0, "sprintf": 1, "snprintf": 2, "dprintf": 1,
@@ -719,6 +720,11 @@ def run(prog, res, tier):
     from rules import c18
     c18.r1_decls(res, tier, rule="R9.no_type_confusion", components={"express", "exppp", "exp2cxx"}, min_units=60,
                  tail=" — the callee reads the object through the wrong layout; a name taken from it is made of pointer bytes, which differ from run to run")
+    # a local that is read before anything was stored in it holds whatever the stack held: a counter printed into generated code then
+    # differs from run to run (clang's flow-sensitive -Wuninitialized / -Wsometimes-uninitialized over the generator units)
+    c18.r1_decls(res, tier, rule="R10.no_uninitialised_local", components={"express", "exppp", "exp2cxx", "exp2python"}, min_units=70,
+                 wflags=("-Wno-everything", "-Wuninitialized", "-Wsometimes-uninitialized"), groups=("uninitialized", "sometimes-uninitialized"),
+                 tail=" — the value is whatever the stack held; printed or used as a number in generated text it differs between runs")
     r8_discriminated_object(prog, res)
     r7_append_only_to_created(prog, res)
     r1_r2_formats(prog, res)
